@@ -38,7 +38,7 @@ STUBS = ['simulated stream (in-memory) with EOF-at-byte-b / OSError / wrong-type
          'allocator seam libvpalloc: poison-on-free + quarantine flush (guard mode) or electric-fence slot arena',
          'reference model: values per storage + alias relation (names/views -> storage)']
 ASSUMPTIONS = ['CPython reference counting (deterministic release order)',
-               '2-D strided / Fortran-ordered buffer sources need NumPy, which /venv does not have: not covered',
+               '2-D strided sources are produced by slicing the rows of a dense matrix through memoryview (unit row stride, larger column stride); general 2-D strides and C/Fortran mixes would need NumPy, which /venv does not have',
                'short writes that report success are not injected (the property defines no behaviour for them)']
 TIERS = {'quick': {'units': 96, 'wall_cap': 70.0, 'unit_timeout': 300.0},
          'thorough': {'units': 8000, 'wall_cap': 900.0, 'unit_timeout': 600.0}}
@@ -219,8 +219,16 @@ def gen_op(rng, w):
 
 
 def gen_import(rng, w):
-    kind = rng.choice(['array', 'array', 'strided', 'cast2d', 'ctypes', 'ctypes2d', 'unsupported'])
+    kind = rng.choice(['array', 'array', 'strided', 'cast2d', 'ctypes', 'ctypes2d', 'unsupported', 'rows2d', 'rows2d'])
     nm = w.fresh()
+    if kind == 'rows2d':
+        # a 2-D view whose column stride is larger than its column: rows a:b:c of a dense matrix seen through memoryview
+        tcx = rng.choice(['i', 'd', 'z'])
+        spec = DNS.gen_dense(rng, rng.randint(1, 4), rng.randint(1, 4), tcx)
+        a = rng.choice([None, 0, 1])
+        b = rng.choice([None, spec['m'], max(0, spec['m'] - 1)])
+        c = rng.choice([None, 1, 2])
+        return ['import', nm, {'k': 'rows2d', 'src': spec, 'slice': [a, b, c], 'v': []}]
     if kind == 'array':
         tcode = rng.choice(['i', 'l', 'q', 'd'])
         k = rng.randint(0, 6)
@@ -551,6 +559,13 @@ def apply(op, w, stats, rngless=None):
                 for j in range(c_):
                     src[i][j] = vals[i * c_ + j]
             want = MDL.MM('d' if spec['tcode'] == 'd' else 'i', r_, c_, [vals[i * c_ + j] for j in range(c_) for i in range(r_)])
+        elif k == 'rows2d':
+            sspec = spec['src']
+            base = SPS.mk(sspec)
+            bm = DNS.model_of(sspec)
+            src = memoryview(base)[slice(*spec['slice'])]
+            rows = list(range(*slice(*spec['slice']).indices(sspec['m'])))
+            want = MDL.MM(sspec['tc'], len(rows), sspec['n'], [bm.get(i, j) for j in range(sspec['n']) for i in rows])
         elif k == 'bytearray':
             src = bytearray(vals)
         elif k == 'bytes':
